@@ -3,6 +3,122 @@ import Exetera.Model.FieldOps
 open Lean Exetera
 namespace Driver.C13
 
+/-! `c13_run`: the whole operator (`FieldOps.opBinary` / `opUnary` / `opDivmod`, then optionally `setItem`) is run on a SYMBOLIC
+    numpy: arrays are terms over the named inputs, `np.call sym args` builds a term, and the one thing the model really asks
+    numpy for — the result dtype of a call, to hand it to `dtype_to_str` — is answered from the `oracle` object of the case
+    (numpy's answers, computed by the harness on the same operands, keyed by the rendered call). The harness then evaluates the
+    returned terms with the real numpy and compares them with what the real operator returned. -/
+
+inductive Term where
+  | inp (name : String)
+  | call (sym : String) (args : List Term)
+  | proj (k : Nat) (t : Term)
+  | append (a b : Term)
+  | zeros0 (dt : String)
+  | cast (dt : String) (t : Term)
+  deriving Inhabited
+
+partial def Term.render : Term → String
+  | .inp n => n
+  | .call s args => s ++ "(" ++ ",".intercalate (args.map Term.render) ++ ")"
+  | .proj k t => t.render ++ "#" ++ toString k
+  | .append a b => "append(" ++ a.render ++ "," ++ b.render ++ ")"
+  | .zeros0 dt => "zeros0(" ++ dt ++ ")"
+  | .cast dt t => "cast(" ++ dt ++ "," ++ t.render ++ ")"
+
+partial def Term.toJson : Term → Json
+  | .inp n => Json.mkObj [("in", Json.str n)]
+  | .call s args => Json.mkObj [("call", Json.str s), ("args", Json.arr (args.map Term.toJson).toArray)]
+  | .proj k t => Json.mkObj [("proj", Json.num (JsonNumber.fromNat k)), ("of", t.toJson)]
+  | .append a b => Json.mkObj [("append", Json.arr #[a.toJson, b.toJson])]
+  | .zeros0 dt => Json.mkObj [("zeros0", Json.str dt)]
+  | .cast dt t => Json.mkObj [("cast", Json.str dt), ("of", t.toJson)]
+
+/-- numpy over terms; `oracle` answers `r.dtype` (as the source spells the type: `bool`, `np.int8`, …) -/
+def symNp (oracle : Json) : FieldOps.Numpy Term where
+  call := .call
+  call2 s args := (.proj 0 (.call s args), .proj 1 (.call s args))
+  dtypeOf t := match oracle.getObjValAs? String t.render with
+    | .ok s => s
+    | .error _ => "?" ++ t.render
+  append := .append
+  zeros0 := .zeros0
+  cast := .cast
+
+def recJson (id : Nat) (r : FieldOps.FieldRec Term) : Json :=
+  Json.mkObj [("id", Json.num (JsonNumber.fromNat id)), ("cls", Json.str r.cls), ("dtype", Json.str r.dtype),
+              ("data", match r.data with | some t => t.toJson | none => Json.null)]
+
+def operandOf (j : Json) : Except String (FieldOps.Operand Term) := do
+  let k ← get? String j "k"
+  match k with
+  | "field" => pure (.field (← get? Nat j "v"))
+  | "array" => pure (.array (.inp (← get? String j "v")))
+  | "scalar" => pure (.scalar (.inp (← get? String j "v")))
+  | _ => throw s!"bad operand kind {k}"
+
+def worldOf (j : Json) : Except String (FieldOps.World Term) := do
+  let fs ← (← j.getObjVal? "fields") |>.getArr?
+  let cells ← fs.toList.mapM fun f => do
+    let id ← get? Nat f "id"
+    let data := match f.getObjValAs? String "data" with
+      | .ok n => some (Term.inp n)
+      | .error _ => none
+    pure (id, ({ cls := ← get? String f "cls", dtype := ← get? String f "dtype", data := data } : FieldOps.FieldRec Term))
+  let next := cells.foldl (fun m c => max m (c.1 + 1)) 0
+  -- dataframe 0: holds the column "x" when the self operand is an HDF5 field (`df_col` = its id), else it is empty
+  let frames := match j.getObjValAs? Nat "df_col" with
+    | .ok fid => [(0, [("x", fid)])]
+    | .error _ => [(0, [])]
+  pure { fields := cells, next := next, frames := frames }
+
+def runJson (j : Json) : Except String Json := do
+  let w ← worldOf j
+  let np := symNp ((j.getObjVal? "oracle").toOption.getD (Json.mkObj []))
+  let pyop ← get? String j "pyop"
+  let (out, called) ← match FieldOps.pyUnary pyop with
+    | some d => do
+      let id ← get? Nat j "self"
+      pure (FieldOps.opUnary np w pyop id, (w.classOf id, d, true))
+    | none => do
+      let l ← operandOf (← j.getObjVal? "left")
+      let r ← operandOf (← j.getObjVal? "right")
+      let ds := (FieldOps.pyDunders pyop).getD ("?", "?")
+      let d := if l.isField then ds.1 else ds.2
+      pure (FieldOps.opBinary np w pyop l r, (FieldOps.dispatchClass w l r, d, l.isField))
+  -- the static route of the dunder Python ends up calling (what `c13_resolve` reports)
+  -- `ord` is relative to the field Python dispatches on (0 = that field, 1 = the other operand); `disp_left`: it is the left one
+  let route := match called with
+    | (some cls, d, _) => FieldOps.resolve cls d
+    | _ => none
+  let routeJ := match route with
+    | some (sym, ord) => [("sym", Json.str sym), ("ord", nats ord), ("disp_left", Json.bool called.2.2)]
+    | none => [("sym", Json.null), ("ord", Json.null), ("disp_left", Json.bool called.2.2)]
+  match out with
+  | .error e => pure (okJson (Json.mkObj (routeJ ++ [("run_err", Json.str e.tag)])))
+  | .ok (w', ids) =>
+    let res := ids.map (fun id => match w'.get? id with | some r => recJson id r | none => Json.null)
+    let pre := w.fields.map (fun c => match w'.get? c.1 with | some r => recJson c.1 r | none => Json.null)
+    let base := [("res", Json.arr res.toArray), ("pre", Json.arr pre.toArray), ("frames_same", Json.bool (w'.frames == w.frames)),
+                 ("fresh", Json.bool (ids.all (fun id => (w.get? id).isNone)))]
+    let extra ← match j.getObjValAs? String "setitem", ids with
+      | .ok name, rid :: _ =>
+        (match FieldOps.setItem np w' 0 name rid with
+         | .error e => pure [("setitem_err", Json.str e.tag)]
+         | .ok w2 =>
+           let col := match w2.frame? 0 with
+             | some cols => (match cols.find? (fun c => c.1 == name) with
+                 | some c => (match w2.get? c.2 with | some r => recJson c.2 r | none => Json.null)
+                 | none => Json.null)
+             | none => Json.null
+           let names : List Json := match w2.frame? 0 with
+             | some cols => cols.map (fun (c : String × Nat) => Json.str c.1)
+             | none => []
+           let after := (w.fields.map (·.1) ++ ids).map (fun id => match w2.get? id with | some r => recJson id r | none => Json.null)
+           pure [("stored", col), ("cols", Json.arr names.toArray), ("after", Json.arr after.toArray)])
+      | _, _ => pure []
+    pure (okJson (Json.mkObj (routeJ ++ [("run", Json.mkObj (base ++ extra))])))
+
 def handle : Driver.Handler := fun op j =>
   match op with
   | "c13_resolve" => some do
@@ -11,6 +127,7 @@ def handle : Driver.Handler := fun op j =>
     pure <| match FieldOps.resolve cls d with
       | some (sym, ord) => Driver.okJson (Json.mkObj [("sym", Json.str sym), ("ord", Driver.nats ord)])
       | none => Json.mkObj [("err", Json.str "unsupported")]
+  | "c13_run" => some (runJson j)
   | _ => none
 
 end Driver.C13
